@@ -12,7 +12,7 @@ from .repo import PKG_REL, AnalysisError, Program, norm
 
 VERIF = os.path.dirname(os.path.dirname(os.path.abspath(__file__)))
 KNOWN_FILE = os.path.join(VERIF, "known_findings.jsonl")
-EVID_DIR = os.path.join(VERIF, "evidence")
+EVID_DIR = os.environ.get("VERIF_EVIDENCE_DIR") or os.path.join(VERIF, "evidence")  # (the override is a development aid for runs against scratch trees)
 
 
 def _slug(s: str) -> str:
